@@ -47,9 +47,11 @@ def receiver_chan(f, term):
     ta = [f.ty(t) for t in fn.get("targs", [])]
     if not ta:
         return None
-    if ta[0].k == "adt" and ta[0].defn == "ControlSignal":
+    import anchors
+    nm = anchors.names(f)
+    if ta[0].k == "adt" and ta[0].defn == nm.control:
         return "ctrl"
-    if ta[0].k == "adt" and ta[0].defn == "MailboxMessage":
+    if ta[0].k == "adt" and ta[0].defn == nm.mailbox:
         return "mailbox"
     return "other"
 
